@@ -59,8 +59,8 @@ PROPS["C07"] = dict(
 
 PROPS["C18"] = dict(
     level="exploration",
-    budget_s=dict(quick=120, thorough=900),
-    parts=[dict(name="units", bin="C18", flavour="plain"), dict(name="retrieval", bin="C18b", flavour="plain")],
+    budget_s=dict(quick=120, thorough=1800),
+    parts=[dict(name="units", bin="C18", flavour="plain", budget_share=0.7), dict(name="retrieval", bin="C18b", flavour="plain")],
     manifest=dict(
         engine="E2", design_ref="5 / C18",
         technique="exhaustive grid over all prefix x base-unit x power strings (pairs, triples) against 10^(power*(ea-eb)); retrieval invariance grid",
@@ -267,7 +267,7 @@ PROPS["C19"] = dict(
     manifest=dict(
         engine="E2", design_ref="5 / C19",
         technique="exhaustive enumeration of generated conforming files x breach catalogue (every kind x variant x entity, singly and in pairs) validated by the real validator; oracle: multiset difference of (entity id, message) errors",
-        text="Conforming files covering all 84 descriptor-kind combinations (rank 1-3) with tags, multi-tags, features, sources and unit-carrying properties must validate without "
+        text="Conforming files covering all 84 descriptor-kind combinations (rank 1-3) plus a 1-D alias-range-dimension array per block, with tags, multi-tags, features, sources and unit-carrying properties must validate without "
              "error. Every hard breach (descriptor count, tick/label/row count, unsorted ticks, non-positive interval, unit mismatch per dimension position from tag and from "
              "array side, deleted positions, deleted feature data) is injected at every applicable entity alone (quick) and in all non-conflicting pairs (thorough) into an id-"
              "preserving copy; the breached entity must draw an error that the file without that breach does not have. Soft breaches must add no error (and a warning where a rule exists).",
@@ -277,7 +277,7 @@ PROPS["C19"] = dict(
         keys=dict(evaluations=("sum", [("count", "breached_entities_checked"), ("count", "soft_checks"), ("count", "conforming_files")]), distinct_nontrivial=("distinct", "outcomes")),
         rule="case = (file, chunk of 8 breach sites); every hard breach (kind x variant x entity) and soft breach injected alone, thorough also every non-conflicting pair (all pairs on 32 "
              "files, related pairs elsewhere); file reopened ReadOnly and File::validate() called; distinct_nontrivial = distinct (breach kind set -> new error messages / soft outcome).",
-        bound=dict(quick="k<=1 on 32 files (about 3.3k breach instances)", thorough="k<=2 on 284 files (28k singles, 181k pairs)"),
+        bound=dict(quick="k<=1 on 32 files (about 4.2k breach instances)", thorough="k<=2 on 284 files (35.8k singles, 259k pairs)"),
         assumptions=["HDF5 dataset/attribute I/O is correct for planting ticks and intervals", "conflicting breach pairs (same attribute, or one removes the other's target) are excluded"],
     ),
 )
